@@ -145,6 +145,13 @@ Definition pass_depth_stmt : Prop := forall c o t next t1 t2 t3 next',
   pending_depth_ok (dwr_seed t1) t1 = true /\ pending_depth_ok (dwr_seed t2) t2 = true
   /\ pending_depth_ok (dwr_seed t3) t3 = true.
 
+(* C06 at the stage boundaries: the redirect counters are exact and no chain exceeds max_redirect *)
+Definition pass_redirects_stmt : Prop := forall c o t next t1 t2 t3 next' t4 d,
+  InvB c t next ->
+  pre_worker o t = Ok t1 -> arch_worker o t1 = Ok t2 -> post_worker c o t2 next = Ok (t3, next') ->
+  fin_worker t3 = Ok (t4, d) ->
+  redir_ok c None t1 = true /\ redir_ok c None t2 = true /\ redir_ok c None t3 = true /\ redir_ok c None t4 = true.
+
 (* ---- no URL is fetched twice within one seed's tree ---- *)
 (* (id, url) of the non-seed nodes the archiver is going to fetch in this pass *)
 Definition fetched (t : item) : list (N * N) :=
